@@ -141,6 +141,10 @@ func isStringTagSupportedType(typ *runtime.Type) bool {
 	case runtime.PtrTo(typ).Implements(unmarshalTextType):
 		return false
 	}
+	if typ.Kind() == reflect.Ptr {
+		// like encoding/json, the option looks through one pointer: *int is quoted, *struct is not
+		typ = typ.Elem()
+	}
 	switch typ.Kind() {
 	case reflect.Map:
 		return false
@@ -151,6 +155,8 @@ func isStringTagSupportedType(typ *runtime.Type) bool {
 	case reflect.Struct:
 		return false
 	case reflect.Interface:
+		return false
+	case reflect.Ptr:
 		return false
 	}
 	return true
